@@ -88,7 +88,8 @@ def _cases(draw, tier):
         if o is None:
             return {'skip': 'no operand value satisfies the constraints', 'isa': cfg}
         ops.append(o)
-    perturb = draw(st.sampled_from(['none', 'none', 'none', 'reg', 'drop', 'add', 'keylabel', 'keylabel', 'keyplus', 'keyplus']))
+    perturb = draw(st.sampled_from(['none', 'none', 'none', 'reg', 'drop', 'add', 'keylabel', 'keylabel', 'keyplus', 'keyplus',
+                                    'garbage', 'garbage']))
     regs = isa.registers
     if perturb == 'reg' and ops and regs:
         i = draw(st.integers(0, len(ops) - 1))
@@ -97,6 +98,10 @@ def _cases(draw, tier):
         ops.pop(draw(st.integers(0, len(ops) - 1)))
     elif perturb == 'add':
         ops.insert(draw(st.integers(0, len(ops))), {'k': 'expr', 'e': ['num', draw(st.integers(0, 9)), 'dec']})
+    elif perturb == 'garbage' and ops:
+        # an acceptable operand followed by text that belongs to nothing: no alternative reads the whole of it
+        i = draw(st.integers(0, len(ops) - 1))
+        ops[i] = {'k': 'raw', 'text': isagen.render_operand(ops[i]) + draw(st.sampled_from([' @', ' !', ' ~', ' 7', ' }', '}', ' ]', ' )', '?', ' $']))}
     elif perturb == 'keyplus' and ops and keys_in_use:
         # an enumeration key followed by more text is an expression over a label of that name, not the key
         idxs = [i for i, o in enumerate(ops) if o['k'] in ('expr', 'enum')]
